@@ -35,7 +35,10 @@ type Op struct {
 
 type Input struct {
 	Progs  [][]Op `json:"progs"`  // the last program is always [close] and runs after all others
-	Script []Step `json:"script"` // decision k releases the (pick mod n)-th parked call with outcome out
+	Script []Step `json:"script"` // decision k releases the (pick mod n)-th parked call with outcome out; pick -1 = start all waiting goroutines at once
+	// MaxConns > 0 bounds the connection pool (corpus only: the model assumes that a driver
+	// call never waits for a connection held by a goroutine that is blocked on the cache)
+	MaxConns int `json:"max_conns,omitempty"`
 }
 
 type Obs struct {
@@ -152,6 +155,9 @@ func (e *env) run(in Input) Obs {
 	rec := recdrv.NewRecorder()
 	sqlDB := sql.OpenDB(&gconnector{inner: recdrv.NewConnector(e.dsn, rec), ctl: ctl})
 	defer sqlDB.Close()
+	if in.MaxConns > 0 {
+		sqlDB.SetMaxOpenConns(in.MaxConns)
+	}
 	p := &pool{db: sqlDB, ctl: ctl, textID: map[string]int{}}
 	for i, t := range texts {
 		p.textID[t] = i
@@ -341,6 +347,20 @@ func isUse(o Op) bool { return o.K == "query" || o.K == "exec" || o.K == "row" }
 func sig(in Input, tr []Ev) string {
 	ws := windows(in, tr)
 	found := map[string]bool{}
+	if in.MaxConns > 0 {
+		ntx := 0
+		for _, p := range in.Progs {
+			for _, o := range p {
+				if o.Tx {
+					ntx++
+					break
+				}
+			}
+		}
+		if ntx >= in.MaxConns {
+			return "tx-holds-last-connection"
+		}
+	}
 	for _, w := range ws {
 		if !isUse(w.op) {
 			continue
@@ -452,8 +472,11 @@ func genProg(r *lib.Rng, nops int, edge bool) []Op {
 			tx = true
 		case x < 78:
 			p = append(p, Op{K: "row", Q: q, Tx: tx && r.Bool()})
-		case x < 93 || !edge:
+		case x < 90:
 			p = append(p, Op{K: "reset"})
+			tx = false
+		case x < 95 || !edge:
+			p = append(p, Op{K: lib.Pick(r, []string{"query", "exec"}), Q: q})
 			tx = false
 		default:
 			p = append(p, Op{K: "close"})
@@ -476,14 +499,87 @@ func genInput(r *lib.Rng, maxG int, edge bool) Input {
 		total += n
 	}
 	in.Progs = append(in.Progs, []Op{{K: "close"}})
+	burst := r.Chance(1, 5)
 	for k := 0; k < 4*total+6; k++ {
 		out := 0
 		if r.Chance(1, 7) || (edge && r.Chance(1, 4)) {
 			out = r.Range(1, 2)
 		}
-		in.Script = append(in.Script, Step{Pick: r.Intn(6), Out: out})
+		pick := r.Intn(6)
+		if burst && (k == 0 || r.Chance(1, 6)) {
+			pick = -1
+		}
+		in.Script = append(in.Script, Step{Pick: pick, Out: out})
 	}
 	return in
+}
+
+// enumBase runs one program under EVERY completion order (depth-first over the controller's
+// decisions; the width of each decision is what the previous run observed), all outcomes ok
+// except the fault-th Prepare/execution release (fault < 0: none).  Returns the number of runs.
+func enumBase(add func(string, Input) Obs, progs [][]Op, fault int, cap int) int {
+	progs = append(append([][]Op{}, progs...), []Op{{K: "close"}})
+	var prefix []int
+	n := 0
+	for n < cap {
+		script := make([]Step, 64)
+		for i := range script {
+			if i < len(prefix) {
+				script[i].Pick = prefix[i]
+			}
+		}
+		in := Input{Progs: progs, Script: script}
+		if fault >= 0 {
+			// the fault goes to the fault-th decision (if it is a start, nothing happens)
+			in.Script[fault].Out = 1
+		}
+		in.Script = in.Script[:40]
+		o := add("enum", in)
+		n++
+		w := o.Widths
+		full := make([]int, len(w))
+		copy(full, prefix)
+		i := len(w) - 1
+		for i >= 0 && full[i]+1 >= w[i] {
+			i--
+		}
+		if i < 0 {
+			break
+		}
+		prefix = append([]int{}, full[:i+1]...)
+		prefix[i]++
+	}
+	return n
+}
+
+func enumerate(add func(string, Input) Obs, budget int) {
+	q := func(k string, qq int, tx bool) Op { return Op{K: k, Q: qq, Tx: tx} }
+	reset, cl := Op{K: "reset"}, Op{K: "close"}
+	bases := [][][]Op{
+		{{q("query", 0, false)}, {q("query", 0, false)}},
+		{{q("query", 0, false)}, {q("exec", 0, false)}, {q("query", 0, false)}},
+		{{q("query", 0, false)}, {reset}, {q("query", 0, false)}},
+		{{q("query", 0, false)}, {q("query", 0, true)}},
+		{{q("query", 0, true)}, {q("exec", 0, false)}, {reset}},
+		{{q("query", 0, false)}, {cl}, {q("query", 0, false)}},
+		{{q("query", 0, false), q("query", 0, false)}, {reset}},
+		{{q("query", 0, false)}, {q("query", 1, false)}, {reset}},
+		{{q("row", 0, false)}, {q("query", 0, false)}},
+		{{q("query", 0, true), q("exec", 0, true)}, {q("query", 0, false)}},
+		{{q("query", 0, false)}, {q("query", 0, false)}, {reset}, {q("query", 0, true)}},
+		{{q("query", 0, false)}, {q("query", 0, false)}, {q("query", 0, false)}, {q("query", 0, false)}},
+		{{q("exec", 0, false)}, {reset}, {q("query", 0, false)}, {cl}},
+	}
+	cap := 900
+	if budget > 0 {
+		cap = budget / len(bases)
+	}
+	for _, b := range bases {
+		enumBase(add, b, -1, cap)
+		for f := 1; f <= 6; f++ {
+			enumBase(add, b, f, cap/6)
+		}
+	}
 }
 
 func main() {
@@ -553,6 +649,14 @@ func main() {
 		add("corpus", load(f))
 	}
 	r := lib.NewRng(a.Seed)
+	if a.Tier == "thorough" {
+		enumerate(add, a.N)
+	} else {
+		// a few completely enumerated small programs in the quick tier, too
+		q := func(k string, tx bool) Op { return Op{K: k, Q: 0, Tx: tx} }
+		enumBase(add, [][]Op{{q("query", false)}, {q("exec", false)}}, -1, 120)
+		enumBase(add, [][]Op{{q("query", false)}, {{K: "reset"}}}, -1, 120)
+	}
 	budget, maxG := 260, 3
 	if a.Tier == "thorough" {
 		budget, maxG = 3000, 4
